@@ -28,6 +28,8 @@ def main():
         out.write(json.dumps({"call": name, "ok": ok, "exc": exc}) + "\n")
         out.flush()
 
+    if sp.get("with_style"):
+        return with_style(sp, mark, say)
     mark("begin-init")
     try:
         w = digital_rf.DigitalRFWriter(
@@ -68,6 +70,41 @@ def main():
         say("close", True)
     except BaseException as e:  # noqa
         say("close", False, repr(e)[:200])
+    say("end", True)
+    return 0
+
+
+def with_style(sp, mark, say):
+    """the recorder in the documented context-manager form, without a try/except of its own around the calls: whatever
+    a call raises leaves the with statement.  with_style == 2: the second call repeats the first (refused: ValueError)"""
+    mark("begin-init")
+    try:
+        with digital_rf.DigitalRFWriter(
+                sp["chan"], sp["dtype"], sp["subdir_cadence"], sp["file_cadence_ms"], sp["start"],
+                sp["srn"], sp["srd"], uuid_str="proto", compression_level=sp.get("compression", 0),
+                checksum=bool(sp.get("checksum", 0)), is_complex=bool(sp.get("is_complex", 0)),
+                num_subchannels=sp.get("nsub", 1), is_continuous=bool(sp.get("continuous", 0)),
+                marching_periods=False) as w:
+            say("init", True)
+            nsub = sp.get("nsub", 1)
+            for i, (g0, n) in enumerate(sp["writes"]):
+                g = np.arange(g0, g0 + n, dtype=np.int64)
+                a = val(g, sp["dtype"]).astype(sp["dtype"])
+                if sp.get("is_complex"):
+                    a = np.stack([a, a], axis=1)
+                elif nsub > 1:
+                    a = np.repeat(a[:, None], nsub, axis=1)
+                mark("begin-write%d" % i)
+                w.rf_write(a, g0)
+                say("write%d" % i, True)
+                if sp["with_style"] == 2 and i == 0:
+                    w.rf_write(a, g0)              # the same samples again: refused
+                    say("rewrite-accepted", True)
+            mark("begin-close")
+            say("block-completed", True)
+        say("after-with", True)
+    except BaseException as e:  # noqa
+        say("escaped", True, repr(e)[:200])
     say("end", True)
     return 0
 
